@@ -35,6 +35,7 @@ STATES = ["inactive", "open", "closing", "closed_clean", "closed_block_failed", 
 OPS = ["add_resource", "add_resource_factory", "get_resource", "get_resource_nowait", "add_teardown_callback", "reenter", "closed"]
 RULE = (
     "complete enumeration of the state x operation x {root,nested} x backend matrix (7 x 7 x 2 x 2 = 196 cells, each in a fresh event "
+    "loop; the 5 delegated operations in the 6 entered states additionally through a retained ComponentContext: + 120 cells) "
     "loop) plus the open-child-at-exit cases, plus random lifecycle programs (0-4 operations in random order in each of the states one "
     "context passes through, random ending). Non-trivial: a case in which at least one call had to be rejected and at least one had to "
     "be accepted; distinct = (state/ops program, ending, kind, backend)."
@@ -45,6 +46,7 @@ DECIDING = {
     "accepted_calls_checked": "calls that must succeed",
     "rejected_then_entered": "rejected call before entry followed by entry and inspection (changed nothing)",
     "ops_inside_teardown": "operations applied inside a teardown callback",
+    "ops_through_component_context": "operations applied through a ComponentContext retained from a component's start()",
     "closed_flip_checked": "closed flag sampled right before the block end and in the first teardown callback",
     "open_child_exit_cases": "parent left while a child entered from it is still open",
     "state_closed_teardown_raised": "state after a teardown that raised",
@@ -100,6 +102,7 @@ class Scenario:
         self.rejected_factory_names: list[str] = []
         self.accepted_factory_names: list[str] = []
         self.ctx: Any = None
+        self.cc: Any = None
 
     def inc(self, k: str, n: int = 1) -> None:
         self.counters[k] = self.counters.get(k, 0) + n
@@ -109,6 +112,12 @@ class Scenario:
 
     async def apply(self, state: str, op: str) -> None:
         ctx = self.ctx
+        if self.case.get("via") == "component" and self.cc is not None and op in ("add_resource", "add_resource_factory", "get_resource",
+                                                                                   "get_resource_nowait", "add_teardown_callback"):
+            # the same operation through a ComponentContext retained from a component's start(): it delegates to the
+            # application context and must obey that context's lifecycle
+            ctx = self.cc
+            self.inc("ops_through_component_context")
         self.n += 1
         k = self.n
         exp_ok = allowed(state, op)
@@ -239,6 +248,16 @@ class Scenario:
                                 await self.apply("closing", op)
 
                         ctx.add_teardown_callback(in_teardown)
+                        if case.get("via") == "component":
+                            from asphalt.core import Component, current_context, start_component
+
+                            sc = self
+
+                            class Holder(Component):
+                                async def start(self_inner) -> None:  # noqa: N805
+                                    sc.cc = current_context()
+
+                            await start_component(Holder, timeout=None)
                         if ops.get("inactive"):
                             # calls rejected before entry must have changed nothing: look now that lookups are allowed
                             self.inc("rejected_then_entered")
@@ -364,6 +383,9 @@ def matrix_cells() -> list[dict[str, Any]]:
             continue  # in 'inactive' entering is the legitimate first entry
         cells.append({"kind": "cell", "state": state, "op": op, "nested": nested, "backend": backend, "ending": ending,
                       "ops": {slot: [op]}})
+        if state != "inactive" and op not in ("reenter", "closed"):
+            cells.append({"kind": "cell", "state": state, "op": op, "nested": nested, "backend": backend, "ending": ending,
+                          "ops": {slot: [op]}, "via": "component"})
     for nested, explicit, backend in itertools.product([False, True], [False, True], ["asyncio", "trio"]):
         cells.append({"kind": "open_child", "nested": nested, "explicit_parent": explicit, "backend": backend})
     for nested, backend in itertools.product([False, True], ["asyncio", "trio"]):
@@ -390,7 +412,7 @@ def gen_case(idx: int, seed: int, tier: str) -> Any:
         pool = [o for o in OPS if not (slot == "inactive" and o == "reenter")]
         ops[slot] = [rng.choice(pool) for _ in range(n)]
     return {"kind": "random", "nested": rng.random() < 0.5, "backend": rng.choice(["asyncio", "trio"]),
-            "ending": rng.choice(ENDINGS), "ops": ops, "sched_seed": rng.randrange(1 << 30)}
+            "ending": rng.choice(ENDINGS), "ops": ops, "sched_seed": rng.randrange(1 << 30), "via": rng.choice(["context", "context", "component"])}
 
 
 def run_case(case: Any) -> dict[str, Any]:
